@@ -310,16 +310,38 @@ func buildProgressive(tracks []trackSpec, mdatFirst bool) ([]byte, error) {
 	return buf.Bytes(), nil
 }
 
-// fragSpec: one fragmented single-track input (for resegmenter / Fragmentify / combine-segs).
+// fragSpec: one fragmented input (for resegmenter / Fragmentify / combine-segs): the samples of the main
+// track, how they are cut into segments, fragments and truns, and how the boxes carry them.
 type fragSpec struct {
 	video     bool
 	timescale uint32
-	samples   []flat  // dts must be contiguous from samples[0].dts
+	samples   []flat  // main track; decode times contiguous inside a fragment
 	segLens   [][]int // per segment: per fragment: number of samples
+	trunLens  [][]int // per fragment (global index): samples per trun of the main traf; nil = one trun
 	styp      bool
-	optimize  bool // OptimizeTrun on every fragment: moves common values into tfhd defaults
+	defaults  int // 0 everything per sample in trun; 1 library OptimizeTrun; 2 common values moved to tfhd defaults / first-sample-flags by hand (also multi-trun)
+	baseMode  int // 0 default-base-is-moof; 1 no tfhd base flags; 2 tfhd base-data-offset = moof position; 3 base-data-offset = mdat payload, trun without data-offset
+	extra     int // > 0: a second track (second traf) with this many samples after every main trun
+	elst      bool
 	trackID   uint32
 	noInit    bool // resegmenter input without ftyp/moov (trex defaults unknown to the tool)
+}
+
+func (fs fragSpec) mainID() uint32 {
+	if fs.trackID == 0 {
+		return 1
+	}
+	return fs.trackID
+}
+func (fs fragSpec) extraID() uint32 { return fs.mainID() + 10 }
+
+func (fs fragSpec) multiTrun() bool {
+	for _, t := range fs.trunLens {
+		if len(t) > 1 {
+			return true
+		}
+	}
+	return false
 }
 
 func fullSampleOf(s flat) mp4.FullSample {
@@ -349,22 +371,113 @@ func buildInit(fs fragSpec) (*mp4.InitSegment, error) {
 			return nil, err
 		}
 	}
-	if fs.trackID != 0 && fs.trackID != 1 {
-		trak.Tkhd.TrackID = fs.trackID
-		init.Moov.Mvex.Trex.TrackID = fs.trackID
+	trak.Tkhd.TrackID = fs.mainID()
+	init.Moov.Mvex.Trex.TrackID = fs.mainID()
+	if fs.elst {
+		edts := &mp4.EdtsBox{}
+		edts.AddChild(&mp4.ElstBox{Entries: []mp4.ElstEntry{{SegmentDuration: 0, MediaTime: int64(fs.timescale) / 25, MediaRateInteger: 1}}})
+		trak.AddChild(edts)
+	}
+	if fs.extra > 0 {
+		init.AddEmptyTrack(48000, "audio", "und")
+		t2 := init.Moov.Traks[1]
+		if err := t2.SetAACDescriptor(aac.AAClc, 48000); err != nil {
+			return nil, err
+		}
+		t2.Tkhd.TrackID = fs.extraID()
+		init.Moov.Mvex.Trexs[1].TrackID = fs.extraID()
+		init.Moov.Mvhd.NextTrackID = fs.extraID() + 1
 	}
 	return init, nil
 }
 
-// buildSegments returns the media segments of a fragmented track.
-func buildSegments(fs fragSpec) ([]*mp4.MediaSegment, error) {
-	tid := fs.trackID
-	if tid == 0 {
-		tid = 1
+// moveDefaults: what an encoder that minimises the moof does for one traf, by hand, over all its truns:
+// common duration / size / flags go to tfhd defaults; "first differs, rest common" uses first-sample-flags.
+func moveDefaults(traf *mp4.TrafBox) {
+	var all []mp4.Sample
+	for _, t := range traf.Truns {
+		all = append(all, t.Samples...)
+	}
+	if len(all) == 0 {
+		return
+	}
+	same := func(f func(mp4.Sample) uint32, ss []mp4.Sample) bool {
+		for _, s := range ss {
+			if f(s) != f(ss[0]) {
+				return false
+			}
+		}
+		return true
+	}
+	dur := func(s mp4.Sample) uint32 { return s.Dur }
+	size := func(s mp4.Sample) uint32 { return s.Size }
+	flags := func(s mp4.Sample) uint32 { return s.Flags }
+	if same(dur, all) {
+		traf.Tfhd.Flags |= 0x8
+		traf.Tfhd.DefaultSampleDuration = all[0].Dur
+		for _, t := range traf.Truns {
+			t.Flags &^= mp4.TrunSampleDurationPresentFlag
+		}
+	}
+	if same(size, all) {
+		traf.Tfhd.Flags |= 0x10
+		traf.Tfhd.DefaultSampleSize = all[0].Size
+		for _, t := range traf.Truns {
+			t.Flags &^= mp4.TrunSampleSizePresentFlag
+		}
+	}
+	if same(flags, all) {
+		traf.Tfhd.Flags |= 0x20
+		traf.Tfhd.DefaultSampleFlags = all[0].Flags
+		for _, t := range traf.Truns {
+			t.Flags &^= mp4.TrunSampleFlagsPresentFlag
+		}
+		return
+	}
+	// first-sample-flags: every trun is "first sample anything, the rest = one common value"
+	var common uint32
+	have := false
+	for _, t := range traf.Truns {
+		for i, s := range t.Samples {
+			if i == 0 {
+				continue
+			}
+			if !have {
+				common, have = s.Flags, true
+			} else if s.Flags != common {
+				return
+			}
+		}
+	}
+	if !have {
+		return
+	}
+	traf.Tfhd.Flags |= 0x20
+	traf.Tfhd.DefaultSampleFlags = common
+	for _, t := range traf.Truns {
+		t.Flags &^= mp4.TrunSampleFlagsPresentFlag
+		if len(t.Samples) > 0 {
+			t.SetFirstSampleFlags(t.Samples[0].Flags)
+		}
+	}
+}
+
+type builtFrag struct {
+	frag *mp4.Fragment
+}
+
+// buildSegments returns the media segments; extraOut receives the samples of the second track (if any).
+func buildSegments(fs fragSpec, extraOut *[]flat) ([]*mp4.MediaSegment, error) {
+	ids := []uint32{fs.mainID()}
+	if fs.extra > 0 {
+		ids = append(ids, fs.extraID())
 	}
 	var segs []*mp4.MediaSegment
 	k := 0
+	fi := 0
 	seq := uint32(1)
+	var xdts uint64
+	xn := 0
 	for _, fl := range fs.segLens {
 		var seg *mp4.MediaSegment
 		if fs.styp {
@@ -373,17 +486,82 @@ func buildSegments(fs fragSpec) ([]*mp4.MediaSegment, error) {
 			seg = mp4.NewMediaSegmentWithoutStyp()
 		}
 		for _, n := range fl {
-			frag, err := mp4.CreateFragment(seq, tid)
+			frag, err := mp4.CreateMultiTrackFragment(seq, ids)
 			if err != nil {
 				return nil, err
 			}
 			seq++
-			if fs.optimize {
-				frag.EncOptimize = mp4.OptimizeTrun
+			truns := []int{n}
+			if fi < len(fs.trunLens) && len(fs.trunLens[fi]) > 0 {
+				truns = fs.trunLens[fi]
 			}
-			for i := 0; i < n && k < len(fs.samples); i++ {
-				frag.AddFullSample(fullSampleOf(fs.samples[k]))
-				k++
+			fi++
+			order := uint32(0)
+			main := frag.Moof.Trafs[0]
+			firstMain, firstExtra := true, true
+			left := n
+			for _, tn := range truns {
+				if tn > left {
+					tn = left
+				}
+				left -= tn
+				trun := mp4.CreateTrun(order)
+				order++
+				_ = main.AddChild(trun)
+				for i := 0; i < tn && k < len(fs.samples); i++ {
+					s := fs.samples[k]
+					if firstMain {
+						main.Tfdt.SetBaseMediaDecodeTime(s.dts)
+						firstMain = false
+					}
+					trun.AddSample(fullSampleOf(s).Sample)
+					frag.Mdat.AddSampleData(s.data)
+					k++
+				}
+				if fs.extra > 0 {
+					xt := frag.Moof.Trafs[1]
+					xtrun := mp4.CreateTrun(order)
+					order++
+					_ = xt.AddChild(xtrun)
+					for i := 0; i < fs.extra; i++ {
+						xn++
+						x := flat{dts: xdts, dur: 1024, flags: 0x02000000, data: sampleBytes(int(fs.extraID()), xn, uint32(2+xn%5))}
+						if firstExtra {
+							xt.Tfdt.SetBaseMediaDecodeTime(x.dts)
+							firstExtra = false
+						}
+						xtrun.AddSample(fullSampleOf(x).Sample)
+						frag.Mdat.AddSampleData(x.data)
+						xdts += 1024
+						if extraOut != nil {
+							*extraOut = append(*extraOut, x)
+						}
+					}
+				}
+			}
+			single := len(truns) == 1 && fs.extra == 0
+			switch fs.defaults {
+			case 1:
+				if single && n > 0 {
+					frag.EncOptimize = mp4.OptimizeTrun
+				}
+			case 2:
+				for _, traf := range frag.Moof.Trafs {
+					moveDefaults(traf)
+				}
+			}
+			for _, traf := range frag.Moof.Trafs {
+				switch fs.baseMode {
+				case 1:
+					traf.Tfhd.Flags &^= 0x020000
+				case 2:
+					traf.Tfhd.Flags = traf.Tfhd.Flags&^0x020000 | 0x1
+				case 3:
+					if single {
+						traf.Tfhd.Flags = traf.Tfhd.Flags&^0x020000 | 0x1
+						traf.Trun.Flags &^= mp4.TrunDataOffsetPresentFlag
+					}
+				}
 			}
 			seg.AddFragment(frag)
 		}
@@ -392,8 +570,10 @@ func buildSegments(fs fragSpec) ([]*mp4.MediaSegment, error) {
 	return segs, nil
 }
 
+// encodeFragmented lays the boxes out, fixes absolute base-data-offsets, and encodes.
 func encodeFragmented(fs fragSpec, withInit bool) ([]byte, error) {
 	var buf bytes.Buffer
+	var pos uint64
 	if withInit {
 		init, err := buildInit(fs)
 		if err != nil {
@@ -402,17 +582,48 @@ func encodeFragmented(fs fragSpec, withInit bool) ([]byte, error) {
 		if err := init.Encode(&buf); err != nil {
 			return nil, err
 		}
+		pos = uint64(buf.Len())
 	}
-	segs, err := buildSegments(fs)
+	segs, err := buildSegments(fs, nil)
 	if err != nil {
 		return nil, err
 	}
-	for _, s := range segs {
-		if err := s.Encode(&buf); err != nil {
-			return nil, err
-		}
+	if err := encodeSegments(&buf, segs, pos, fs); err != nil {
+		return nil, err
 	}
 	return buf.Bytes(), nil
+}
+
+func encodeSegments(buf *bytes.Buffer, segs []*mp4.MediaSegment, pos uint64, fs fragSpec) error {
+	for _, s := range segs {
+		if s.Styp != nil {
+			pos += s.Styp.Size()
+		}
+		for _, frag := range s.Fragments {
+			if frag.EncOptimize&mp4.OptimizeTrun != 0 {
+				// sizes must be final before positions are computed
+				if err := frag.Moof.Traf.OptimizeTfhdTrun(); err != nil {
+					return err
+				}
+				frag.EncOptimize = 0
+			}
+			for _, traf := range frag.Moof.Trafs {
+				if traf.Tfhd.Flags&0x1 != 0 {
+					traf.Tfhd.BaseDataOffset = pos
+					if fs.baseMode == 3 && traf.Trun != nil && traf.Trun.Flags&mp4.TrunDataOffsetPresentFlag == 0 {
+						traf.Tfhd.BaseDataOffset = pos + frag.Moof.Size() + frag.Mdat.HeaderSize()
+					}
+				}
+			}
+			pos += frag.Size()
+		}
+		before := buf.Len()
+		if err := s.Encode(buf); err != nil {
+			return err
+		}
+		_ = before
+	}
+	return nil
 }
 
 // ---------------------------------------------------------------- reading outputs back
